@@ -7,8 +7,11 @@ import time
 
 import z3
 
+EQS_TACTIC = "(then simplify propagate-values solve-eqs simplify smt)"
+
 SOLVERS = {
     "z3-5.1.0": ["z3-new", "-smt2"],
+    "z3-5.1.0/solve-eqs": ["z3-new", "-smt2"],
     "z3-4.8.12": ["/usr/bin/z3", "-smt2"],
     "cvc5-1.0": ["cvc5", "--lang=smt2"],
 }
@@ -50,6 +53,8 @@ def _kill(p):
 
 def run_cli(name, text, timeout):
     cmd = list(SOLVERS[name])
+    if name.endswith("/solve-eqs"):
+        text = text.replace("(check-sat)", "(check-sat-using %s)" % EQS_TACTIC)
     if name.startswith("cvc5"):
         text = "(set-logic ALL)\n" + text
         cmd += ["--tlimit=%d" % int(timeout * 1000)]
@@ -74,7 +79,7 @@ def first_line(out):
     return "error"
 
 
-def race(text, timeout, solvers=("z3-5.1.0", "cvc5-1.0", "z3-4.8.12"), need=1):
+def race(text, timeout, solvers=("z3-5.1.0/solve-eqs", "z3-5.1.0", "cvc5-1.0", "z3-4.8.12"), need=1):
     """Run CLI solvers concurrently; return dict name -> (status, secs). Stops when `need` definitive answers agree."""
     procs = {}
     paths = []
@@ -136,7 +141,10 @@ def _solve_one(name, text, t_quick, t_full, cross):
     out = {"name": name, "status": "unknown", "solver": None, "ms": 0, "cross": None, "detail": ""}
     try:
         ctx = z3.Context()
-        s = z3.Solver(ctx=ctx)
+        # equation solving first: index arithmetic over many symbolic offsets is hopeless for the plain SMT core
+        tac = z3.Then(z3.Tactic("simplify", ctx), z3.Tactic("propagate-values", ctx), z3.Tactic("solve-eqs", ctx),
+                      z3.Tactic("simplify", ctx), z3.Tactic("smt", ctx), ctx=ctx)
+        s = tac.solver()
         s.set("timeout", int(t_quick * 1000))
         s.from_string(text)
         r = s.check()
@@ -147,7 +155,7 @@ def _solve_one(name, text, t_quick, t_full, cross):
     out["ms"] = int((time.time() - t0) * 1000)
     if st in ("unsat", "sat"):
         out["status"] = st
-        out["solver"] = "z3-5.1.0(api)"
+        out["solver"] = "z3-5.1.0(api,solve-eqs)"
     if st not in ("unsat", "sat"):
         res = race(text, t_full)
         out["race"] = {k: (v[0], round(v[1], 2)) for k, v in res.items()}
@@ -161,7 +169,7 @@ def _solve_one(name, text, t_quick, t_full, cross):
         out["ms"] = int((time.time() - t0) * 1000)
     if cross and out["status"] == "unsat":
         others = [n for n in ("cvc5-1.0", "z3-4.8.12", "z3-5.1.0") if n != out["solver"]]
-        if out["solver"] == "z3-5.1.0(api)":
+        if out["solver"].startswith("z3-5.1.0(api"):
             others = ["cvc5-1.0", "z3-4.8.12"]
         res = race(text, t_full, solvers=others, need=1)
         agree = [k for k, v in res.items() if v[0] == "unsat"]
